@@ -237,6 +237,52 @@ func jsonCases[T any](cs []absCase, val func(i int) T) []test.CaseJSON[T] {
 	return out
 }
 
+// TypeHelper implementations for the two unmarshaler instantiations: they do what the helpers do
+// without one (a fresh value, "empty" means nothing decoded, equality of what was decoded), so the
+// verdict must be the same; the calls are counted.
+type thVal struct{ news, empties, equals int }
+
+func (h *thVal) New(upT) upT { h.news++; return upT{} }
+func (h *thVal) AssertEmpty(t test.TestingT, v upT, failInfo string) {
+	h.empties++
+	if v.Got != "" {
+		t.Errorf("%s: value not empty", failInfo)
+	}
+}
+func (h *thVal) AssertEqual(t test.TestingT, expected, actual upT, failInfo string) {
+	h.equals++
+	if expected != actual {
+		t.Errorf("%s: values differ", failInfo)
+	}
+}
+
+type thPtr struct{ news, empties, equals int }
+
+func (h *thPtr) New(*upT) *upT { h.news++; return &upT{} }
+func (h *thPtr) AssertEmpty(t test.TestingT, v *upT, failInfo string) {
+	h.empties++
+	if v == nil || v.Got != "" {
+		t.Errorf("%s: value not empty", failInfo)
+	}
+}
+func (h *thPtr) AssertEqual(t test.TestingT, expected, actual *upT, failInfo string) {
+	h.equals++
+	if expected == nil || actual == nil || *expected != *actual {
+		t.Errorf("%s: values differ", failInfo)
+	}
+}
+
+func runUnmarshalWith[T any](t *recT, enc string, cs []absCase, val func(i int) T, h test.TypeHelper[T]) {
+	switch enc {
+	case "Text":
+		test.UnmarshalText[T](t, textCases(cs, val), h)
+	case "Binary":
+		test.UnmarshalBinary[T](t, binaryCases(cs, val), h)
+	default:
+		test.UnmarshalJSON[T](t, jsonCases(cs, val), h)
+	}
+}
+
 func runHelper[T any](t *recT, dir, enc string, cs []absCase, val func(i int) T) {
 	switch dir + enc {
 	case "marshalText":
@@ -301,8 +347,12 @@ func init() {
 				runHelper(t, dir, enc, cs, func(i int) mvT { return mvT{ID: i} })
 			case dir == "marshal":
 				runHelper(t, dir, enc, cs, func(i int) *mpT { return &mpT{ID: i} })
+			case recv == "value" && e["th"] == true:
+				runUnmarshalWith[upT](t, enc, cs, func(i int) upT { return upT{Got: "right"} }, &thVal{})
 			case recv == "value":
 				runHelper(t, dir, enc, cs, func(i int) upT { return upT{Got: "right"} })
+			case e["th"] == true:
+				runUnmarshalWith[*upT](t, enc, cs, func(i int) *upT { return &upT{Got: "right"} }, &thPtr{})
 			default:
 				runHelper(t, dir, enc, cs, func(i int) *upT { return &upT{Got: "right"} })
 			}
@@ -338,6 +388,7 @@ func init() {
 			}
 			req := Ev(normalize(m).(map[string]any))
 			req["op"] = "helper.run"
+			req["th"] = n%4 == 0 && req["dir"] == "unmarshal" && req["iface"] == true && req["recv"] != "ifacetype"
 			d.Do(req)
 			d.S.Boundary()
 		}
@@ -366,7 +417,7 @@ func init() {
 				has = true
 			}
 			d.Do(Ev{"op": "helper.run", "dir": []string{"marshal", "unmarshal"}[d.R.Intn(2)], "enc": []string{"Text", "Binary", "JSON"}[d.R.Intn(3)],
-				"recv": recv, "iface": has, "cases": cases})
+				"recv": recv, "iface": has, "cases": cases, "th": recv != "ifacetype" && has && d.R.Intn(3) == 0})
 			d.S.Boundary()
 		}
 	}
